@@ -543,3 +543,64 @@ pub fn c16_joiner_goes_on(rep: &mut Report, backend: Bk) {
     }
     rep.states += 1;
 }
+
+/// C02, the sender's own copy across groups: the client is in a second group (its own, advanced to epoch 3 by self-updates
+/// applied from their echo) and has an unconfirmed message there, created before / between / after the two commits of a
+/// race in the first group that ends in a rollback. The echo of that message confirms it whatever the first group did.
+pub fn c02_own_message_in_other_group(rep: &mut Report, backend: Bk) {
+    let sc = base("c02-two-groups", &["A", "B", "Z"], &["A", "B"], &[], vec![act("A", ActKind::Rename("loser".into()), 20), act("B", ActKind::Rename("winner".into()), 10)]);
+    let w = match build_world(&sc, backend) {
+        Ok(w) => w,
+        Err(e) => {
+            rep.machinery_errors.push(format!("c02 two-groups world: {}", e.0));
+            return;
+        }
+    };
+    let idx = |s: &str| w.pool.iter().position(|p| p.label.contains(s)).unwrap();
+    let (loser, winner) = (idx("A.rename0"), idx("B.rename1"));
+    for pos in 0..3usize {
+        let z = w.initial["Z"].fork();
+        let cfgd = NostrGroupConfigData::new("own".into(), "second".into(), None, None, None, vec![relay("wss://own.example")], vec![z.pk()]);
+        let Ok(g2) = with_mdk!(z, m => m.create_group(&z.pk(), vec![], cfgd)) else {
+            rep.machinery_errors.push("c02 two-groups: create_group".into());
+            return;
+        };
+        let g2id = g2.group.mls_group_id.clone();
+        let _ = with_mdk!(z, m => m.merge_pending_commit(&g2id));
+        for _ in 0..3 {
+            if let Ok(u) = with_mdk!(z, m => m.self_update(&g2id)) {
+                let _ = z.process(&u.evolution_event);
+            }
+        }
+        let mut own: Option<nostr::Event> = None;
+        let mut steps: Vec<String> = Vec::new();
+        for k in 0..3usize {
+            if k == pos {
+                own = with_mdk!(z, m => m.create_message(&g2id, rumor(&z.keys, "own-message-in-the-second-group", now() - 30))).ok();
+                steps.push(format!("create_message(g2) -> {}", own.is_some()));
+            }
+            if k < 2 {
+                let i = [loser, winner][k];
+                steps.push(format!("{} -> {}", w.pool[i].label, result_kind(&z.process(&w.pool[i].event))));
+            }
+        }
+        let Some(own) = own else {
+            rep.machinery_errors.push("c02 two-groups: create_message in g2".into());
+            continue;
+        };
+        let r = z.process(&own);
+        steps.push(format!("echo of the g2 message -> {}", result_kind(&r)));
+        let state = with_mdk!(z, m => m.get_messages(&g2id, None)).ok().and_then(|v| v.into_iter().find(|m| m.wrapper_event_id == own.id).map(|m| m.state.as_str().to_string())).unwrap_or_else(|| "not-stored".into());
+        let g1_name = z.group_obs(&w.gid).map(|o| o.record["name"].as_str().unwrap_or("").to_string()).unwrap_or_default();
+        rep.case(&format!("own-message-other-group|{backend:?}|{pos}|{}|{state}|g1={g1_name}", result_kind(&r)));
+        rep.evaluations += 1;
+        if state != "processed" {
+            rep.finding(
+                format!("C02|own-message-of-another-group-not-confirmed|created={}|ends-{state}|{backend:?}", ["before-the-race", "between-the-commits", "after-the-rollback"][pos]),
+                format!("own message in the second group (epoch 3) is not confirmed by its echo after a rollback in the first group: [{}]", steps.join(" ; ")),
+                json!({"backend": format!("{backend:?}"), "steps": steps}),
+            );
+        }
+    }
+    rep.states += 1;
+}
